@@ -194,6 +194,8 @@ example :
     let cs : TCmd := { name := "prog".toList, interspersed := false, flags := [({ name := "name".toList, short := some 'n' }, false)] }
     traverseSlot #[cs] 3 0 ["--name".toList] "val".toList = .flagValue 0 "name".toList ∧
     Pflag.parse (flagsAt #[cs] 2 0) false ([] : List Str) = .ok {} := by
-  constructor <;> decide
+  constructor
+  · decide
+  · rfl
 
 end Carapace.Props.C01
